@@ -63,6 +63,14 @@ def products(which):
     return cf, cd, conf
 
 
+def returned(cat):
+    """A creation that returns reports what it returned (the surviving parent of a killed writer process)."""
+    import json
+
+    rows = {int(pid): sorted(tuple(float(x) for x in r) for r in p.load_data().tolist()) for pid, p in cat.items()}
+    print("RETURNED " + json.dumps(rows, sort_keys=True), flush=True)
+
+
 def main():
     wl, phase, base = sys.argv[1:4]
     import logging
@@ -76,7 +84,7 @@ def main():
         os.makedirs(base, exist_ok=True)
         if wl in ("W1", "W1p"):
             pass
-        elif wl == "W2":
+        elif wl in ("W2", "W2p"):
             make(R, old)
         elif wl in ("W3", "W4", "W5", "W5f", "W6"):
             cat = make(R, new, chunksize=3)
@@ -96,9 +104,9 @@ def main():
                 conf.to_file(os.path.join(base, "conf.yml"))
     elif phase == "work":
         if wl in ("W1", "W1p"):  # W1p: two workers, the writer is a process of its own
-            make(R, new, chunksize=3)
-        elif wl == "W2":
-            make(R, new, chunksize=3, overwrite=True)
+            returned(make(R, new, chunksize=3))
+        elif wl in ("W2", "W2p"):
+            returned(make(R, new, chunksize=3, overwrite=True))
         elif wl == "W3":
             Catalog(R)
         elif wl == "W4":
